@@ -14,6 +14,9 @@ COMMANDS = ["curl"]
 # Output flags that write to files
 OUTPUT_FLAGS = frozenset({"-o", "--output"})
 
+# Short options that take an argument (they end a cluster such as -sLo)
+_SHORT_FLAGS_WITH_ARG = "AbcCdDeEFHKmoPQrtTuUwxXyYz"
+
 # Flags that send data (always unsafe unless explicit GET)
 DATA_FLAGS = frozenset(
     {
@@ -79,6 +82,15 @@ def _extract_output_file(tokens: list[str]) -> str | None:
         # -ofile (no space)
         if t.startswith("-o") and len(t) > 2 and not t.startswith("-o="):
             return t[2:]
+        # -o inside a cluster of short options: -Lo file, -sLofile
+        if t.startswith("-") and not t.startswith("--") and len(t) > 2:
+            for k, c in enumerate(t[1:], start=1):
+                if c == "o":
+                    if k + 1 < len(t):
+                        return t[k + 1 :]
+                    return tokens[i + 1] if i + 1 < len(tokens) else None
+                if c in _SHORT_FLAGS_WITH_ARG:
+                    break  # takes the rest of the cluster as its own argument
         # --output file
         if t == "--output" and i + 1 < len(tokens):
             return tokens[i + 1]
